@@ -90,7 +90,7 @@ def zite(c, a, b):
     return z3.If(c, a, b)
 
 class Interp:
-    def __init__(self, bodies, allocs, models, params=None, src_root='/repo'):
+    def __init__(self, bodies, allocs, models, params=None, src_root='/repo', expanded=None):
         self.bodies = bodies; self.allocs = allocs; self.models = models
         self.params = params or {}
         self.src_root = src_root
@@ -104,6 +104,7 @@ class Interp:
         self.suffix_index = None
         self.enums = dict(BUILTIN_ENUMS)
         self.load_enums(src_root)
+        if expanded: self.load_local_enums(expanded)
         self.tot = {'decisions': 0, 'solver_s': 0.0, 'queries': 0, 'steps': 0}
         self.functions_run = set()
         self.reset([])
@@ -162,9 +163,9 @@ class Interp:
             if not isinstance(d, bool): raise Unsupported('decision stream misaligned (branch)')
         else:
             t = self.check(cond)
-            if t == z3.unknown: raise PathEnd('unknown', 'solver unknown on branch feasibility')
+            if t == z3.unknown: self.dump_unknown(cond); raise PathEnd('unknown', 'solver unknown on branch feasibility')
             f = self.check(z3.Not(cond))
-            if f == z3.unknown: raise PathEnd('unknown', 'solver unknown on branch feasibility')
+            if f == z3.unknown: self.dump_unknown(z3.Not(cond)); raise PathEnd('unknown', 'solver unknown on branch feasibility')
             t = t == z3.sat; f = f == z3.sat
             if t and f:
                 d = True; self.pending.append(self.decisions + [False])
@@ -175,6 +176,15 @@ class Interp:
         self.decisions.append(d)
         self.assume(cond if d else z3.Not(cond))
         return d
+
+    def dump_unknown(self, extra):
+        d = os.environ.get('VERIF_DUMP_UNKNOWN')
+        if not d: return
+        try:
+            os.makedirs(d, exist_ok=True)
+            s2 = z3.Solver(); s2.add(self.solver.assertions()); s2.add(extra)
+            open(os.path.join(d, f'unknown-{os.getpid()}-{int(time.time()*1000)}.smt2'), 'w').write(s2.to_smt2())
+        except Exception: pass
 
     def choose(self, conds):
         """pick index i such that conds[i] holds (mutually exclusive, last is 'otherwise')"""
@@ -318,6 +328,7 @@ class Interp:
         if k == 'index':
             idx = frame[p[1]].val
             if isinstance(val, VTuple):
+                if not is_conc(idx.v) and len(val.items) > 16: return self.table_lookup(val.items, idx.v)
                 i = self.concretize(idx.v, what='array index')
                 return val.items[i]
             if isinstance(val, VObj) and val.kind == 'vec':
@@ -325,6 +336,29 @@ class Interp:
                 return val.items[i]
         if k == 'constindex' and isinstance(val, VTuple): return val.items[p[1]]
         raise Unsupported(f'projection {p} of {val!r}')
+
+    def table_lookup(self, items, idx):
+        """constant table indexed by a symbolic integer: fork per DISTINCT table value (not per index)"""
+        groups = {}; order = []
+        for i, it in enumerate(items):
+            if isinstance(it, VEnum) and not it.items: key = ('e', it.ty, it.variant)
+            elif isinstance(it, (VInt, VBool)) and is_conc(it.v): key = ('s', it.v)
+            else: raise Unsupported('symbolic index into a table of non-scalar items')
+            if key not in groups: groups[key] = []; order.append(key)
+            groups[key].append(i)
+        def cond(ix):
+            rs = []; a = b = ix[0]
+            for i in ix[1:]:
+                if i == b + 1: b = i
+                else: rs.append((a, b)); a = b = i
+            rs.append((a, b))
+            return zor(*[(idx == lo) if lo == hi else z3.And(idx >= lo, idx <= hi) for lo, hi in rs])
+        # most populous group last (it becomes the 'otherwise')
+        order.sort(key=lambda k: len(groups[k]))
+        for key in order[:-1]:
+            if self.branch(cond(groups[key])): return items[groups[key][0]]
+        self.assume(zand(idx >= 0, idx < len(items)))
+        return items[groups[order[-1]][0]]
 
     def read_ref(self, r):
         val = r.cell.val
@@ -621,7 +655,6 @@ class Interp:
 
     def load_enums(self, root):
         for f in glob.glob(root + '/src/**/*.rs', recursive=True):
-            if f.endswith('/generated/unit.rs'): continue
             try: txt = open(f).read()
             except OSError: continue
             for m in re.finditer(r'\benum (\w+)(?:<[^>]*>)?\s*\{', txt):
@@ -636,8 +669,39 @@ class Interp:
                 if m.group(1) not in BUILTIN_ENUMS:
                     self.enums[m.group(1)] = {v: i for i, v in enumerate(vs)}
 
+    def load_local_enums(self, path):
+        """enums declared inside function bodies by macros (logos `enum Jump {..}` per goto function): keyed
+        'fn::Enum' and 'ImplType|fn::Enum' from the macro-expanded source (declaration order = discriminants)"""
+        try: txt = open(path).read()
+        except OSError: return
+        impls = [(m.start(), m.group(1)) for m in re.finditer(r"impl<'s> ::logos::Logos<'s> for (\w+)", txt)]
+        seen = {}
+        for m in re.finditer(r"fn (\w+)<'s>\(lex: &mut Lexer<'s>\)\s*\{\s*enum (\w+) \{([^}]*)\}", txt):
+            owner = None
+            for pos, name in impls:
+                if pos < m.start(): owner = name
+            vs = [v.strip() for v in m.group(3).split(',') if v.strip()]
+            table = {v: i for i, v in enumerate(vs)}
+            key = f'{m.group(1)}::{m.group(2)}'
+            self.enums[f'{owner}|{key}'] = table
+            seen.setdefault(key, []).append(table)
+        for key, ts in seen.items():
+            if len(ts) == 1: self.enums[key] = ts[0]
+
     def enum_base(self, tyname):
-        return re.sub(r'<.*$', '', tyname).split('::')[-1]
+        t = tyname.strip(); selfty = None
+        if t.startswith('<'):
+            j = match_angle(t, 0)
+            if j > 0:
+                selfty = t[1:j].split(' as ')[0].split('::')[-1]
+                t = t[j + 1:].lstrip(':')
+        segs = re.sub(r'<.*$', '', t).split('::')
+        last = segs[-1]
+        if last in self.enums or len(segs) < 2: return last
+        k2 = f'{segs[-2]}::{last}'
+        if k2 in self.enums: return k2
+        if selfty and f'{selfty}|{k2}' in self.enums: return f'{selfty}|{k2}'
+        return last
     def is_enum_type(self, tyname):
         return self.enum_base(tyname) in self.enums
     def enum_table(self, tyname):
@@ -676,8 +740,19 @@ class Interp:
             cands = self.call_cache.get(callee)
             if cands is None:
                 name = strip_generic_suffix(callee)
-                cands = self.find_bodies(name)
-                if not cands: cands = self.find_impl(callee)
+                # exact key first, then inherent/trait impls (a method `Type::<'_>::eval` must not be taken for the
+                # free function that rustc prints with the trimmed path `eval`), then path-suffix matching
+                cands = [b for b in self.bodies.get(name.strip(), []) if b.kind == 'fn']
+                if not cands and callee.startswith('<'):
+                    # function nested in a trait method:  <T as Trait<..>>::method::inner  ->  <impl ..>::method::inner
+                    j = match_angle(callee, 0)
+                    mm = re.match(r'^::(\w+)::(\w+)$', callee[j + 1:]) if j > 0 else None
+                    if mm:
+                        outer = [b for b in self.find_impl(callee[:j + 1] + '::' + mm.group(1)) if b.kind == 'fn']
+                        if len(outer) == 1:
+                            cands = [b for b in self.bodies.get(outer[0].name + '::' + mm.group(2), []) if b.kind == 'fn']
+                if not cands: cands = [b for b in self.find_impl(callee) if b.kind == 'fn']
+                if not cands: cands = self.find_bodies(name)
                 self.call_cache[callee] = cands
             if len(cands) > 1:
                 cands = [b for b in cands if len(b.args) == len(args) and self.args_match(b, args)] or cands
@@ -801,6 +876,17 @@ class Interp:
             on_path(self, outcome)
         stats['left'] = len(work)
         return stats
+
+def match_angle(s, i):
+    """s[i] == '<': index of the matching '>' (ignoring -> and =>), or -1"""
+    depth = 0
+    for q in range(i, len(s)):
+        c = s[q]
+        if c == '<': depth += 1
+        elif c == '>' and s[q - 1] not in '-=':
+            depth -= 1
+            if depth == 0: return q
+    return -1
 
 def strip_generic_suffix(name):
     """`path::f::<A, (B, C)>` -> `path::f`"""
